@@ -132,6 +132,10 @@ def gen_spec(rng, kind=None):
         spec["rate"] = rng.choice((8000, 16000, 44100))
         if kind == "sph":
             spec["order"] = rng.choice(("01", "10"))
+            if rng.random() < 0.3:
+                # the SPHERE reader works in 16 KiB reads: payloads that cross one or two read boundaries, with
+                # frames that may straddle them (seeded change C11-n needed exactly this)
+                spec["n"] = max(1, 16384 // (2 * spec["channels"]) * rng.choice((1, 1, 2)) + rng.randrange(-3, 400))
         return spec
     nd = rng.choice((1, 1, 2, 2, 3)) if (kind == "raw" or rng.random() > 0.06) else 0  # 0-d: a stored scalar
     spec["shape"] = [rng.choice((1, 2, 3, 5, 17, 64)) for _ in range(nd)]
